@@ -21,7 +21,7 @@ type walkFile struct {
 	rel     string // path below the directory
 	toml    bool   // the loader must consider it (suffix .toml, any case)
 	present bool
-	quality int // 0 good, 1 syntax error, 2 unknown field, 3 decodes but is rejected (channel 17), 4 empty file
+	quality int // 0 good, 1 syntax error, 2 unknown field, 3 decodes but is rejected (channel 17), 4 empty file, 5 the decoder panics
 	vendor  uint16
 }
 
@@ -89,6 +89,8 @@ func walkContent(f *walkFile) []byte {
 		return verifrt.TOMLToken(c, 2)
 	case 4:
 		return []byte{}
+	case 5:
+		return verifrt.TOMLToken(c, 4)
 	}
 	return verifrt.TOMLToken(c, 0)
 }
@@ -104,7 +106,7 @@ func walkPopulate(dir string, dirPresent bool, files []walkFile, tag string) {
 	for i := range files {
 		f := &files[i]
 		f.present = verifrt.Bool(verifrt.N(tag+".present", i))
-		f.quality = int(verifrt.U8(verifrt.N(tag+".quality", i)) % 5)
+		f.quality = int(verifrt.U8(verifrt.N(tag+".quality", i)) % 6)
 		f.vendor = uint16(verifrt.U8(verifrt.N(tag+".vendor", i)) % 3)
 	}
 	if !dirPresent {
